@@ -75,6 +75,31 @@ func c11Value(t *rapid.T, name string, kind reflect.Kind, label string) any {
 	return nil
 }
 
+// c11FlipCase changes the letter case of 1..n letters of s (s unchanged when it has no letters).
+func c11FlipCase(t *rapid.T, s string) string {
+	b := []byte(s)
+	var letters []int
+	for i, ch := range b {
+		if (ch >= 'a' && ch <= 'z') || (ch >= 'A' && ch <= 'Z') {
+			letters = append(letters, i)
+		}
+	}
+	if len(letters) == 0 {
+		return s
+	}
+	if rapid.Bool().Draw(t, "flipAllLetters") {
+		for _, i := range letters {
+			b[i] ^= 0x20
+		}
+		return string(b)
+	}
+	k := rapid.IntRange(1, min(3, len(letters))).Draw(t, "flips")
+	for j := 0; j < k; j++ {
+		b[letters[rapid.IntRange(0, len(letters)-1).Draw(t, "letter")]] ^= 0x20
+	}
+	return string(b)
+}
+
 func c11NewClaim(kind int) skywaytypes.EthereumClaim {
 	switch kind {
 	case 0:
@@ -129,6 +154,12 @@ func TestC11_ClaimIdentityBindsFields(t *testing.T) {
 		mut := c11Clone(base)
 		nv := c11Value(t, f.Name, f.Type.Kind(), "new."+f.Name)
 		old := reflect.ValueOf(base).Elem().FieldByName(f.Name).Interface()
+		// Receiver and sale contract are used as plain strings by the handlers (mixed-case bech32 does not decode: the
+		// deposit goes to the community pool; the sale contract is compared byte-wise with the registered one), so a
+		// spelling that differs only in letter case is a different effect as well.
+		if (f.Name == "PalomaReceiver" || f.Name == "SmartContractAddress") && rapid.IntRange(0, 3).Draw(t, "caseFlipOnly") == 0 {
+			nv = c11FlipCase(t, old.(string))
+		}
 		if fmt.Sprint(old) == fmt.Sprint(nv) {
 			t.Skip("same value drawn")
 		}
@@ -230,7 +261,7 @@ type c11Env struct {
 }
 
 func TestC11_CollidingClaimsSameEffect(t *testing.T) {
-	evid.Check(t, 10, 60, func(t *rapid.T) {
+	evid.Check(t, 20, 100, func(t *rapid.T) {
 		salt := fmt.Sprintf("c11-%d", rapid.IntRange(0, 1<<20).Draw(t, "salt"))
 		kind := rapid.IntRange(0, 2).Draw(t, "claimType")
 		// an applicable base claim at nonce 1 of the active deployment
@@ -238,12 +269,26 @@ func TestC11_CollidingClaimsSameEffect(t *testing.T) {
 		compass := "compass-1"
 		evA := rapid.Uint64Range(1, 1000).Draw(t, "eventNonceA")
 		evB := rapid.Uint64Range(1, 1000).Draw(t, "eventNonceB")
-		shape := rapid.SampledFrom([]string{"eventNonce", "eventNonce", "slashShift", "saleContract"}).Draw(t, "pairShape")
+		shape := rapid.SampledFrom([]string{"eventNonce", "eventNonce", "slashShift", "saleContract", "receiverCase", "saleContractCase", "tokenCase"}).Draw(t, "pairShape")
 		recvA, recvB, compA, compB := receiver, receiver, compass, compass
 		if shape == "slashShift" && kind == 0 {
 			// "<recv>/<compass>" ambiguity: ("p/q","compass-1") vs ("p","q/compass-1")
 			recvA, compA = "p/q", compass
 			recvB, compB = "p", "q/"+compass
+			evB = evA
+		}
+		if shape == "receiverCase" {
+			kind = 0
+			recvA = chain.MkActor(salt + "/user-ub").Addr.String()
+			recvB = c11FlipCase(t, recvA)
+			evB = evA
+		}
+		tokA, tokB := c11ERC20, c11ERC20
+		if shape == "tokenCase" {
+			if kind == 2 {
+				kind = 0
+			}
+			tokB = c11FlipCase(t, tokA)
 			evB = evA
 		}
 		client := chain.MkActor(salt + "/c11-client").Addr.String()
@@ -254,14 +299,19 @@ func TestC11_CollidingClaimsSameEffect(t *testing.T) {
 			saleA, saleB = c11Sale, "0x00000000000000000000000000000000000000f8"
 			evB = evA
 		}
-		build := func(ev uint64, recv, comp string, saleAddr string) func(e *c11Env, v *chain.Validator) sdk.Msg {
+		if shape == "saleContractCase" {
+			kind = 2
+			saleA, saleB = c11Sale, c11FlipCase(t, c11Sale)
+			evB = evA
+		}
+		build := func(ev uint64, recv, comp string, saleAddr, tok string) func(e *c11Env, v *chain.Validator) sdk.Msg {
 			return func(e *c11Env, v *chain.Validator) sdk.Msg {
 				switch kind {
 				case 0:
-					return &skywaytypes.MsgSendToPalomaClaim{Metadata: chain.MD(v.Actor), Orchestrator: v.Addr.String(), EventNonce: ev, SkywayNonce: 1, EthBlockHeight: 700, TokenContract: c11ERC20,
+					return &skywaytypes.MsgSendToPalomaClaim{Metadata: chain.MD(v.Actor), Orchestrator: v.Addr.String(), EventNonce: ev, SkywayNonce: 1, EthBlockHeight: 700, TokenContract: tok,
 						Amount: sdkmath.NewInt(55), EthereumSender: "0x00000000000000000000000000000000000000b1", PalomaReceiver: recv, ChainReferenceId: c11Chain, CompassId: comp}
 				case 1:
-					return &skywaytypes.MsgBatchSendToRemoteClaim{Metadata: chain.MD(v.Actor), Orchestrator: v.Addr.String(), EventNonce: ev, SkywayNonce: 1, EthBlockHeight: 700, BatchNonce: 1, TokenContract: c11ERC20,
+					return &skywaytypes.MsgBatchSendToRemoteClaim{Metadata: chain.MD(v.Actor), Orchestrator: v.Addr.String(), EventNonce: ev, SkywayNonce: 1, EthBlockHeight: 700, BatchNonce: 1, TokenContract: tok,
 						ChainReferenceId: c11Chain, CompassId: comp}
 				default:
 					return &skywaytypes.MsgLightNodeSaleClaim{Metadata: chain.MD(v.Actor), Orchestrator: v.Addr.String(), EventNonce: ev, SkywayNonce: 1, EthBlockHeight: 700, ChainReferenceId: c11Chain,
@@ -271,8 +321,8 @@ func TestC11_CollidingClaimsSameEffect(t *testing.T) {
 		}
 		dummy := &c11Env{}
 		v0 := &chain.Validator{Actor: chain.MkActor("c11-dummy")}
-		ca := build(evA, recvA, compA, saleA)(dummy, v0).(skywaytypes.EthereumClaim)
-		cb := build(evB, recvB, compB, saleB)(dummy, v0).(skywaytypes.EthereumClaim)
+		ca := build(evA, recvA, compA, saleA, tokA)(dummy, v0).(skywaytypes.EthereumClaim)
+		cb := build(evB, recvB, compB, saleB, tokB)(dummy, v0).(skywaytypes.EthereumClaim)
 		if ca.ValidateBasic() != nil || cb.ValidateBasic() != nil {
 			// a claim that fails its stateless validation can never be voted for: nothing can be pooled with it
 			evid.Case(t.Name(), fmt.Sprintf("rejected kind=%d %s", kind, shape), false, []string{fmt.Sprintf("rejectedStateless/type%d/%s", kind, shape)}, nil)
@@ -283,8 +333,8 @@ func TestC11_CollidingClaimsSameEffect(t *testing.T) {
 			evid.Case(t.Name(), fmt.Sprintf("nocollision kind=%d %s", kind, shape), false, []string{fmt.Sprintf("noCollision/type%d/%s", kind, shape)}, nil)
 			return
 		}
-		accA, digA := c11Drive(t, salt, build(evA, recvA, compA, saleA))
-		accB, digB := c11Drive(t, salt, build(evB, recvB, compB, saleB))
+		accA, digA := c11Drive(t, salt, build(evA, recvA, compA, saleA, tokA))
+		accB, digB := c11Drive(t, salt, build(evB, recvB, compB, saleB, tokB))
 		if accA != accB {
 			t.Fatalf("claims with the same tally identity differ in acceptance: %d vs %d votes accepted\n A=%v\n B=%v", accA, accB, ca, cb)
 		}
